@@ -335,31 +335,21 @@ Proof. split; reflexivity. Qed.
 Theorem bzl_user_dir_never_deleted (sc : script) : o_removed (run_bzl true sc) = false.
 Proof. apply user_dir_never_deleted_given. apply bzl_flags. Qed.
 
-Lemma bzl_unprotected_stages : stages_before_fin false (f_items bzl_flow) = [SBuildRepo].
+(* since the build_repo call moved inside the try: no stage call precedes it *)
+Lemma bzl_no_unprotected_stage : stages_before_fin false (f_items bzl_flow) = [].
 Proof. reflexivity. Qed.
 
-Definition bzl_tmp_removed_full_statement : Prop :=
-  forall sc : script, o_removed (run_bzl false sc) = true.
-
-(* proved part: every exit at or after perform_compile.  Missing: build_repo still runs
-   before the try in compile_requirements *)
-Theorem bzl_tmp_removed_all_exits_partial (sc : script) :
-  sc SBuildRepo = None -> o_removed (run_bzl false sc) = true.
+(* FULL statement for the Bazel front end: the temporary wheel directory is gone after every exit *)
+Theorem bzl_tmp_removed_all_exits (sc : script) : o_removed (run_bzl false sc) = true.
 Proof.
-  intro H. apply tmp_removed_partial_gen.
-  - apply bzl_flags. - reflexivity.
-  - rewrite bzl_unprotected_stages. intros s [E|[]]. subst. exact H.
-Qed.
-
-Theorem bzl_tmp_left_behind_refuted : ~ bzl_tmp_removed_full_statement.
-Proof.
-  intro H. specialize (H (script_of [(SBuildRepo, EValueError)])). vm_compute in H. discriminate.
+  apply tmp_removed_all_exits_given.
+  - apply bzl_flags. - reflexivity. - apply bzl_no_unprotected_stage.
 Qed.
 
 Theorem bzl_exits_table :
   run_bzl false (script_of []) = mkOut Done true /\
   run_bzl false (script_of [(SCompile, ENoCandidate)]) = mkOut (Uncaught ECompilation) true /\
-  run_bzl false (script_of [(SBuildRepo, EValueError)]) = mkOut (Uncaught EValueError) false /\
+  run_bzl false (script_of [(SBuildRepo, EValueError)]) = mkOut (Uncaught EValueError) true /\
   run_bzl true (script_of []) = mkOut Done false /\
   run_bzl true (script_of [(SCompile, ENoCandidate)]) = mkOut (Uncaught ECompilation) false.
 Proof. vm_compute. repeat split. Qed.
